@@ -14,7 +14,7 @@ DEC_SKILL = [0.1, 0.3, 0.7, 1.0, 1.1]
 DEC_COST = [0.0, 0.1, 1.0, 3.3, 7.7]
 SIZES = [0.5, 1.0, 1.0, 1.0, 2.0, 1.0, 1.0, 0.5, 2.0, 0.0]
 CAPS = [0.0, 0.5, 1.0, 1.0, 1.5, 2.0, 3.0, 1.0, 2.0, float("inf")]
-TIGHT_SIZES = [0.5, 1.0, 1.0, 1.0, 2.0]  # capacity contention: every component takes room, every workplace is small
+TIGHT_SIZES = [0.5, 1.0, 1.0, 1.0, 2.0, 1.0, 0.5, 1.000003, 0.500002]  # capacity contention: every component takes room, every workplace is small
 TIGHT_CAPS = [0.5, 1.0, 1.0, 1.5, 2.0, 3.0]
 N_TASK_W = [(1, 4), (2, 14), (3, 20), (4, 20), (5, 16), (6, 11), (7, 8), (8, 7)]
 
@@ -69,6 +69,8 @@ def gen_profile(rng, focus=None):
     p["assign_list"] = rng.random() < 0.15  # workflow built with `wf.task_list = [...]` (parent_workflow set lazily)
     p["int_kinds"] = rng.random() < 0.1  # dependency kinds given as the plain integers 0..3 (what the saved format holds)
     p["late_register"] = rng.random() < 0.12  # some tasks are registered in the workflow before they are linked, others after
+    p["wp_targets_any"] = rng.random() < 0.15  # a workplace also lists tasks that have no component (`wp.extend_targeted_task_list(workflow.task_list)`)
+    p["same_ids"] = rng.random() < 0.08  # facility IDs equal worker IDs (IDs are unique per kind only)
     p["wp_ctor_inputs"] = rng.random() < 0.25  # conveyor links handed to the workplace constructor (one-sided: no output lists)
     p.update(focus)
     if not p["comps"]:
@@ -147,6 +149,13 @@ def gen_model(rng, p, n_tasks=None):
                 if t.get("auto") and not p["auto_comp"]:
                     continue
                 t["comp"] = rng.randrange(nc)
+    if p.get("single_task_comps") and comps:
+        # every component-bound task gets a component of its own (flat product)
+        comps = []
+        for t in tasks:
+            if t.get("comp") is not None:
+                comps.append({"id": "c%d" % len(comps), "size": rng.choice(TIGHT_SIZES[:5]), "children": []})
+                t["comp"] = len(comps) - 1
     # organisation
     nt = wchoice(rng, [(1, 5), (2, 3), (3, 1)])
     cont = p["contention"]
@@ -197,11 +206,13 @@ def gen_model(rng, p, n_tasks=None):
                 rng.choice(tm["workers"])["skills"][t["id"]] = rng.choice(SKILL)
     wps = []
     if p["facilities"]:
-        npl = rng.randint(1, 3)
+        npl = rng.randint(1, 3) if not p.get("single_task_comps") else rng.choice([1, 1, 2])
         fid = 0
         comp_tasks = [i for i, t in enumerate(tasks) if t.get("comp") is not None]
         for k in range(npl):
             targets = [i for i in comp_tasks if rng.random() < 0.75]
+            if p.get("wp_targets_any"):
+                targets = sorted(set(targets) | set(i for i in range(n) if i not in comp_tasks and rng.random() < 0.5))
             facs = []
             for _ in range(rng.randint(1, 3 if cont == "low" else 2)):
                 f = {"id": "f%d" % fid, "skills": {}, "cost": rng.choice(COST)}
@@ -218,7 +229,12 @@ def gen_model(rng, p, n_tasks=None):
             if p["conveyor"] and k > 0:
                 wp["inputs"] = [i for i in range(k) if rng.random() < 0.5]
             wps.append(wp)
-        allf = [f["id"] for wp in wps for f in wp["facs"]]
+        if p.get("same_ids"):
+            for wp in wps:
+                for f in wp["facs"]:
+                    f["name"] = f["id"]  # (worker facility skills are keyed by facility name)
+                    f["id"] = "w" + f["id"][1:]
+        allf = [f.get("name", f["id"]) for wp in wps for f in wp["facs"]]
         for tm in teams:
             for w in tm["workers"]:
                 for f in allf:
@@ -250,8 +266,9 @@ def gen_model(rng, p, n_tasks=None):
                     w["abs"] = gen_absence(rng, 14, rng.randint(1, 5))
         for wp in wps:
             for f in wp["facs"]:
-                if rng.random() < 0.35:
-                    f["abs"] = gen_absence(rng, 14, rng.randint(1, 4))
+                if rng.random() < (0.75 if p.get("fac_abs_dense") else 0.35):
+                    f["abs"] = gen_absence(rng, 14, rng.randint(1, 4)) if not p.get("fac_abs_dense") else \
+                        [k for k in range(0, 12) if rng.random() < 0.45]  # comes and goes: absent about every other step
     m = {"tasks": tasks, "deps": deps, "teams": teams, "comps": comps, "wps": wps}
     if p.get("org_tree"):
         for k in range(1, len(teams)):
